@@ -321,7 +321,8 @@ def apply_cases(ctx, rnd):
              dict(uc='USD', tc='JPY', k=0, t6=_limbs(150375000)), dict(uc='JPY', tc='EUR', k=2, t6=_limbs(612345)),
              dict(uc='KWD', tc='EUR', k=0, t6=_limbs(2990000)), dict(uc='HKD', tc='EUR', k=2, t6=_limbs(699000)),
              dict(uc='EUR', tc='KWD', k=0, t6=_limbs(333333)), dict(uc='USD', tc='EUR', k=1, t6=_limbs(9123457)),
-             dict(uc='KWD', tc='JPY', k=0, t6=_limbs(480123456))]
+             dict(uc='KWD', tc='JPY', k=0, t6=_limbs(480123456)),
+             dict(uc='USD', tc='HKD', k=0, t6=_limbs(1000000)), dict(uc='EUR', tc='KWD', k=0, t6=_limbs(1000000))]    # pegged 1:1
     if not quick:
         rates += stored_rates(rnd, 30, ('EUR', 'USD', 'JPY', 'KWD', 'HKD'))
     for r in rates:
@@ -370,6 +371,7 @@ def rate_eq_cases(ctx, rnd):
                     b = dict(uc=uc, tc=tc, m=V(kinds[0], m * scale), t=tk)
                     cs.append(dict(op='rate_eq', a=a, b=b))
                     cs.append(dict(op='rate_eq', a=a, b=b, via='inv2'))
+                    cs.append(dict(op='rate_eq', a=a, b=b, via='hashinv'))
             cs.append(dict(op='rate_eq', a=a, b=dict(uc=tc, tc=uc, m=V('int', m), t=V('dec', t))))
             # the same number between other currencies is another rate
             for (u2, t2) in ((uc, 'USD' if tc != 'USD' else 'HKD'), ('HKD' if uc != 'HKD' else 'USD', tc)):
